@@ -6,6 +6,7 @@ import (
 	"go/token"
 	"regexp"
 	"strings"
+	"sync"
 
 	"golang.org/x/tools/go/ssa"
 
@@ -174,10 +175,10 @@ func elementHeaderRules(c *Ctx) int {
 
 // walker features of an RFC 8285 one-byte block walk
 type walkFeatures struct {
-	paddingSkip  bool // a zero byte advances the cursor by one and continues the walk
-	reservedStop bool // id 15 stops the walk
-	idShift      bool // id = byte >> 4
-	lenPlusOne   bool // len = (byte & 0x0F) + 1
+	paddingSkip  bool    // a zero byte advances the cursor by one and continues the walk
+	reservedStop bool    // id 15 stops the walk
+	idShift      bool    // id = byte >> 4
+	lenPlusOne   bool    // len = (byte & 0x0F) + 1
 	byteStops    []int64 // non-zero constants a whole element-header byte is compared with on a branch that leaves the walk
 }
 
@@ -463,6 +464,7 @@ func headerContracts(c *Ctx, withReservedStop bool) *bounds.Hooks {
 			}
 		}
 	}
+	var noLenOnce sync.Once
 	return &bounds.Hooks{AtReturn: func(h *bounds.Helper, fn *ssa.Function, ret *ssa.Return, d *bounds.Disjunct) {
 		if fn != hu || len(ret.Results) != 2 {
 			return
@@ -487,6 +489,13 @@ func headerContracts(c *Ctx, withReservedStop bool) *bounds.Hooks {
 				if payloadLen != nil && d.Has(payloadLen) {
 					fits = lin.LE(n.Add(d.Int(payloadLen)), e)
 					what = "the value bytes"
+				} else if payloadLen == nil {
+					// the element's value length is not a single variable of this function (one loop per header form,
+					// the tail in a helper): which quantity the error is about cannot be told here
+					noLenOnce.Do(func() {
+						c.R.Infof("CTR ext-containment: not decided — no variable joining the value lengths of the two header forms in Header.Unmarshal")
+					})
+					return
 				} else {
 					fits = lin.LE(n.AddConst(1), e)
 				}
